@@ -1,5 +1,6 @@
 (** Concrete witnesses (vm_compute on closed inputs): the defects F8, F9, F11 of the parser as it
-    was ([parse_bytes_old]) against the fixed behaviour ([parse_bytes]), and non-vacuity instances. The
+    was ([parse_bytes_old]) and F12 of Parser.int as it was ([p_int_old]) against the fixed behaviour
+    ([parse_bytes], [p_int]), and non-vacuity instances. The
     inputs are pure ASCII, so the results hold for every non-ASCII classification [il], [id]. *)
 From Coq Require Import ZArith List String Ascii.
 From CanVerif Require Import Dbc.Ast Dbc.Scanner Dbc.DecFloat Dbc.Parser.
@@ -67,3 +68,23 @@ Lemma lookahead_drops_message : forall il id,
   parse_bytes il id lookahead_input = Err (at_ 2 1 13) EScanNul []
   /\ parse_bytes_old il id lookahead_input = Err (at_ 2 1 13) EScanNul [].
 Proof. intros. split; vm_compute; reflexivity. Qed.
+
+(** F12: INT / HEX attribute values went through float64.  After the fix the values 2^63 - 1 and
+    -(2^53 + 1) arrive as written ... *)
+Definition f12_input : bytes :=
+  txt ("BA_DEF_ SG_ ""GenSigStartValue"" INT 0 0;" ++ LF ++ "BA_ ""GenSigStartValue"" SG_ 1 S 9223372036854775807;" ++ LF
+       ++ "BA_ ""GenSigStartValue"" SG_ 1 S -9007199254740993;" ++ LF).
+
+Lemma f12_fixed : forall il id,
+  exists a v1 v2, parse_bytes il id f12_input = Ok [DAttribute a; DAttributeValue v1; DAttributeValue v2]
+    /\ av_int v1 = 9223372036854775807 /\ av_int v2 = -9007199254740993.
+Proof. intros. vm_compute. do 3 eexists. repeat split. Qed.
+
+(** ... while Parser.int as it was ([p_int_old], run by the model parser on the text that follows
+    the signal name) read MinInt64 and -2^53 *)
+Lemma f12_old : forall il id,
+  (exists st, p_int_old il id 40 (p_init (txt " 9223372036854775807;")) = POk (-9223372036854775808) st)
+  /\ (exists st, p_int_old il id 40 (p_init (txt " -9007199254740993;")) = POk (-9007199254740992) st)
+  /\ (exists st, p_int il id 40 (p_init (txt " 9223372036854775807;")) = POk 9223372036854775807 st)
+  /\ (exists st, p_int il id 40 (p_init (txt " -9007199254740993;")) = POk (-9007199254740993) st).
+Proof. intros. repeat split; vm_compute; eexists; reflexivity. Qed.
